@@ -12,6 +12,7 @@ import (
 	"strings"
 	"time"
 
+	objectwire "github.com/nspcc-dev/neofs-node/internal/object"
 	"github.com/nspcc-dev/neofs-node/internal/vrt"
 	"github.com/nspcc-dev/neofs-node/pkg/util"
 	apistatus "github.com/nspcc-dev/neofs-sdk-go/client/status"
@@ -296,5 +297,91 @@ func VerifC10Map() {
 			vrt.Assert(seen[i] == 0, "iteration lists no absent address")
 		}
 	}
+	vrt.Reach("end")
+}
+
+// verifHeadBuf replaces the constant header buffer length (20480) in the
+// overlay copy of head.go so that the buffer boundaries are within reach.
+var verifHeadBuf = objectwire.NonPayloadFieldsBufferLength
+
+// VerifC10ReadHeader: a combined file of two or three objects written by the
+// real batch writer, with object sizes around the reader's buffer length B
+// (here 48 instead of 20480: 1, B-1, B, B+1, 2B+3 bytes): for every member,
+// readHeader's buffered head followed by the rest of the stream it returns is
+// exactly that member's bytes - nothing of the neighbours, nothing missing.
+func VerifC10ReadHeader() {
+	c10install()
+	defer func() { c10 = nil }()
+	const b = 48
+	verifHeadBuf = b
+	defer func() { verifHeadBuf = objectwire.NonPayloadFieldsBufferLength }()
+	t := New(WithPath("/root"), WithDepth(0))
+	t.writer = &linuxWriter{
+		root: "/root", perm: 0o600,
+		flags: unix.O_WRONLY | unix.O_TMPFILE | unix.O_CLOEXEC | unix.O_DSYNC, bFlags: unix.O_WRONLY | unix.O_TMPFILE | unix.O_CLOEXEC,
+		combinedCountLimit: 4, combinedSizeLimit: 4096, combinedSizeThreshold: 1024,
+		combinedWriteInterval: time.Hour,
+	}
+	sizes := [...]int{1, b - 1, b, b + 1, 2*b + 3}
+	n := 2 + vrt.Choice("objectsInFile", 2)
+	var units []writeDataUnit
+	var datas [][]byte
+	for i := 0; i < n; i++ {
+		d := vrt.Bytes("objectBytes", sizes[vrt.Choice("objectSize", len(sizes))])
+		vrt.Assume(d[0] != combinedPrefix && d[0] != 0x28)
+		a := c10addr(byte(i + 1))
+		units = append(units, writeDataUnit{id: a.Object(), path: t.treePath(a), data: d})
+		datas = append(datas, d)
+	}
+	vrt.Assert(t.writer.writeBatch(units) == nil, "batch write succeeds")
+	for i := 0; i < n; i++ {
+		f, err := verifOpen(units[i].path)
+		vrt.Assert(err == nil, "every member has its path")
+		if err != nil {
+			continue
+		}
+		head, stream, err := t.readHeader(units[i].id, f, make([]byte, 2*b))
+		vrt.Assert(err == nil, "the member is found in the combined file")
+		if err != nil {
+			continue
+		}
+		got := append([]byte{}, head...)
+		buf := make([]byte, 16)
+		// a head shorter than the buffer is the whole object: callers
+		// (preprocessStreamHead) close and ignore the stream then
+		for k := 0; k < 64 && len(head) >= b; k++ {
+			m, rerr := stream.Read(buf)
+			got = append(got, buf[:m]...)
+			if rerr != nil {
+				break
+			}
+		}
+		vrt.Assert(slices.Equal(got, datas[i]), "head plus stream of a combined-file member is exactly that member's bytes")
+	}
+	vrt.Reach("end")
+}
+
+// VerifC10PrefixedReader: the payload stream handed to callers is a buffered
+// prefix followed by the (limited) rest of the file: read in chunks of any
+// size until EOF - as io.ReadAll does, stopping at the first error - it yields
+// the whole prefix and exactly the permitted bytes of the rest, also when the
+// rest is already exhausted (limit 0) or the file has nothing left.
+func VerifC10PrefixedReader() {
+	pl := vrt.Choice("prefixLength", 5)
+	rl := vrt.Choice("restLength", 4)
+	all := vrt.Bytes("bytes", pl+rl+2)
+	limit := vrt.Choice("restLimit", rl+1)
+	file := &c10file{n: &c10node{data: all[pl : pl+rl+2]}}
+	r := newPrefixedReadSeekCloser(all[:pl], &limitedFileReader{ReadSeekCloser: file, limit: int64(limit)})
+	buf := make([]byte, 1+vrt.Choice("readBufferSize", 3))
+	var got []byte
+	for k := 0; k < 16; k++ {
+		n, err := r.Read(buf)
+		got = append(got, buf[:n]...)
+		if err != nil {
+			break
+		}
+	}
+	vrt.Assert(slices.Equal(got, all[:pl+limit]), "reading the stream to its end yields the prefix and exactly the permitted rest")
 	vrt.Reach("end")
 }
